@@ -12,7 +12,7 @@
    proportional to the input — a 5-byte input can reserve MAX_VEC_SIZE bytes — it is bounded by that constant plus a linear term. *)
 From Coq Require Import List Arith NArith ZArith Bool.
 From Coq.Strings Require Import Byte.
-From EV Require Gen.SrcScript Proofs.SrcScript.
+From EV Require Gen.SrcScript Proofs.SrcScript Gen.SrcAddr Proofs.SrcAddr.
 From EV Require Import Base.Bytes Base.Codec Gen.Tables Model.Script Model.Taproot Model.Bech32 Model.Tx Model.Block Model.Alloc Model.Totality
   Proofs.Script Proofs.ScriptTemplates Proofs.Taproot Proofs.Alloc Proofs.Totality.
 Import ListNotations.
@@ -101,6 +101,11 @@ Theorem C10_templates_no_panic_from_source : forall s : bytes,
 Proof. intros s. repeat split; auto using SrcScript.src_is_p2sh_safe, SrcScript.src_is_p2pkh_safe, SrcScript.src_is_p2pk_safe, SrcScript.src_is_witness_program_safe,
   SrcScript.src_is_v0_p2wsh_safe, SrcScript.src_is_v1_p2tr_safe, SrcScript.src_is_v1plus_p2witprog_safe, SrcScript.src_is_v0_p2wpkh_safe,
   SrcScript.src_is_op_return_safe, SrcScript.src_is_provably_unspendable_safe. Qed.
+(* Address::from_script from the source text: the no-panic condition GENERATED from its arms in src/address.rs (every `script.as_bytes()[a..b]` inside
+   the script, every `try_into().unwrap()` to [u8; 20] given exactly 20 bytes, `script.as_bytes()[0] - 0x50` not below zero and the value handed to
+   `Fe32::try_from(..).expect(..)` below 32) holds for every script *)
+Theorem C10_from_script_no_panic_from_source : forall s : bytes, SrcAddr.src_from_script_safe s = true.
+Proof. exact SrcAddr.src_from_script_safe_all. Qed.
 (* Address::from_script (imported, C16) *)
 Theorem C10_total_from_script : forall s : bytes, exists r, from_script s = Script.Val r.
 Proof. exact from_script_total. Qed.
@@ -263,3 +268,4 @@ Print Assumptions C10_total_finalize.
 Print Assumptions C10_total_pset_values.
 Print Assumptions C10_total_templates.
 Print Assumptions C10_seq_from_seconds_ceil.
+Print Assumptions C10_from_script_no_panic_from_source.
